@@ -126,11 +126,22 @@ package outlier
 //@ guarded nodeBreakers by updateMux {C15}
 //@ guarded currentRules by updateRuleMux {C15}
 
-// called by LoadRulesOfResource with the update lock held (C15); its effect is not specified here
+// per-resource load, called by LoadRulesOfResource with the update lock held: a rule that is invalid (itself or its
+// embedded breaker rule) is rejected and nothing changes; a valid one is put in force for that resource (that the
+// entries of other resources stay as they are is not discharged by the solvers here — the frame obligations only
+// show that no other object is written)
 //@ func onResourceRuleUpdate(res, rule) err
-//@   assumed
+//@   props C13
 //@   requires[holds-the-update-lock]{C15} wlockcount(updateRuleMux) > 0
-//@   modifies heap
+//@   requires outlierRules != nil && breakerRules != nil && nodeBreakers != nil && currentRules != nil
+//@   requires[tables-are-distinct-objects] ref(outlierRules) != ref(currentRules) && ref(outlierRules) != ref(breakerRules) && ref(outlierRules) != ref(nodeBreakers) && ref(breakerRules) != ref(currentRules) && ref(breakerRules) != ref(nodeBreakers) && ref(nodeBreakers) != ref(currentRules)
+//@   ensures[invalid-rule-rejected] !(validOutlier(rule) && validBreakerRule(rule.Rule)) ==> err != nil
+//@   ensures[rejected-load-changes-nothing] err != nil ==> frame()
+//@   ensures[valid-rule-in-force] err == nil ==> validOutlier(rule) && validBreakerRule(rule.Rule) && outlierRules[res] == rule && breakerRules[res] == rule.Rule && currentRules[res] == rule
+//@   modifies mapof(outlierRules), mapof(breakerRules), mapof(nodeBreakers), mapof(currentRules)
+//@   loop 1:
+//@     invariant[new-node-table] newBreakers != nil && fresh(newBreakers)
+//@     invariant[nothing-written] frame()
 
 // rebuilds every node breaker from the rule tables and swaps the registry (assumed: its loops over maps of maps and
 // the breaker builder are not under contract); it does not touch the rule tables
